@@ -1,6 +1,7 @@
 package main
 
 import (
+	"context"
 	"encoding/json"
 	"fmt"
 	"os"
@@ -178,7 +179,17 @@ func (ctx *checkCtx) runJobs(jobs []Job) {
 			outp := filepath.Join(tmp, fmt.Sprintf("out%d.json", k))
 			data, _ := json.Marshal(shards[k])
 			os.WriteFile(in, data, 0644)
-			cmd := exec.Command(self, "shard", in, outp, strconv.Itoa(per))
+			// hard wall-clock limit per check: a hung worker is killed and its jobs are reported as inconclusive
+			limit := 45 * time.Minute
+			if ctx.tier == "thorough" {
+				limit = 120 * time.Minute
+			}
+			if v, err := strconv.Atoi(os.Getenv("GOSMT_WALL_LIMIT_MIN")); err == nil && v > 0 {
+				limit = time.Duration(v) * time.Minute
+			}
+			cctx, cancel := context.WithTimeout(context.Background(), limit)
+			defer cancel()
+			cmd := exec.CommandContext(cctx, self, "shard", in, outp, strconv.Itoa(per))
 			cmd.Stderr = os.Stderr
 			cmd.Env = os.Environ()
 			runErr := cmd.Run()
@@ -232,7 +243,7 @@ func (ctx *checkCtx) run(jobs []Job) int {
 				case "sat":
 					o.Verdict = "ok"
 					// replay one cover witness per (harness,label) for translator validation
-					k := o.job.Harness + "/" + o.Label
+					k := o.job.Harness + "/" + o.Label + "/" + o.job.CoverKey
 					if o.Model != nil && !coverSeen[k] && !o.job.Abstract {
 						coverSeen[k] = true
 						toReplay = append(toReplay, repItem{o, ctx.replayCase(o)})
@@ -244,8 +255,14 @@ func (ctx *checkCtx) run(jobs []Job) int {
 						o.Verdict = "inconclusive"
 						o.Detail = "vacuous: cover point unreachable"
 					}
+				case "skipped":
+					o.Verdict = "ok" // path-wise job: the label was already reached on another path
 				default:
-					o.Verdict = "inconclusive"
+					if jr.Paths > 1 {
+						o.Verdict = "ok" // undecided on this path; reachability is checked per label below
+					} else {
+						o.Verdict = "inconclusive"
+					}
 				}
 			case "unwind":
 				o.Verdict = "inconclusive"
@@ -521,7 +538,19 @@ func (ctx *checkCtx) writeEvidence() {
 	var samples []interface{}
 	jobsOut := []interface{}{}
 	bySolver := map[string]int{}
+	b1agg := &B1Report{InputBits: b1InputBits}
+	b1over := map[string]bool{}
 	for _, jr := range ctx.jobs {
+		if jr.B1 != nil {
+			b1agg.Ops += jr.B1.Ops
+			b1agg.Unknown += jr.B1.Unknown
+			if jr.B1.MaxBits > b1agg.MaxBits {
+				b1agg.MaxBits = jr.B1.MaxBits
+			}
+			for _, o := range jr.B1.Over {
+				b1over[o] = true
+			}
+		}
 		states += jr.Merges + jr.Forks + jr.Paths
 		trans += jr.Instrs
 		for _, f := range jr.Funcs {
@@ -565,6 +594,10 @@ func (ctx *checkCtx) writeEvidence() {
 	if len(samples) == 0 {
 		samples = append(samples, "no obligations generated")
 	}
+	for o := range b1over {
+		b1agg.Over = append(b1agg.Over, o)
+	}
+	sort.Strings(b1agg.Over)
 	meta := propMeta[ctx.prop]
 	ev := map[string]interface{}{
 		"property_id": ctx.prop,
@@ -592,7 +625,14 @@ func (ctx *checkCtx) writeEvidence() {
 			"explanation":                   "states = symbolic forks + merges + fork paths; transitions = SSA instructions executed symbolically; traces_validated = native replays (cover witnesses, known-finding witnesses, counterexamples) that agreed with the engine",
 			"known_findings_reported":       dedup(ctx.knownLines),
 			"inconclusive":                  dedup(ctx.incon),
-			"exhaustive":                    false,
+			"float_exactness_monitor": map[string]interface{}{
+				"what":            fmt.Sprintf("assumption B1: with integer (or common-scale dyadic) inputs of magnitude <= 2^%d, every + - * executed in repository code in exact mode has an integer result whose magnitude bound (from its canonical polynomial) is reported here; below 2^53 means the real-number model of that operation is exact", b1InputBits),
+				"operations":      b1agg.Ops,
+				"max_result_bits": b1agg.MaxBits,
+				"unbounded_ops":   b1agg.Unknown,
+				"over_2^53":       b1agg.Over,
+			},
+			"exhaustive": false,
 		},
 	}
 	os.MkdirAll(filepath.Join(verifDir, "evidence"), 0755)
